@@ -325,6 +325,15 @@ def mp_oracles(net, T, rec):
 				io = sum(sv[t].inbound_order[s][p] for s in sv[t].inbound_order)
 				if fg is not None and prev_il is not None and not close(il, prev_il + fg[p] - io):
 					bad['C01'].append('node %s product %s t=%d: IL %s != prev %s + produced %s - orders %s' % (n.index, p, t, il, prev_il, fg[p], io))
+				# service bookkeeping per PRODUCT: cumulative demand grows by the orders received for this product, what was met from stock never
+				# exceeds it, and the reported fill rate is their ratio (1 while there has been no demand)
+				dc, dm = sv[t].demand_cumul[p], sv[t].demand_met_from_stock_cumul[p]
+				if t > 0 and not close(dc, sv[t - 1].demand_cumul[p] + io):
+					bad['C02'].append('node %s product %s t=%d: cumulative demand %s != previous %s + orders received %s' % (n.index, p, t, dc, sv[t - 1].demand_cumul[p], io))
+				if dm > dc + TOL:
+					bad['C02'].append('node %s product %s t=%d: cumulative demand met from stock %s exceeds cumulative demand %s' % (n.index, p, t, dm, dc))
+				if not close(sv[t].fill_rate[p], (dm / dc) if dc > 0 else 1.0):
+					bad['C02'].append('node %s product %s t=%d: fill rate %s != met from stock %s / demand %s' % (n.index, p, t, sv[t].fill_rate[p], dm, dc))
 				bo = sum(sv[t].backorders_by_successor[s][p] for s in sv[t].backorders_by_successor)
 				if not close(bo, max(0, -il)):
 					bad['C02'].append('node %s product %s t=%d: backorders %s != negative part of IL %s' % (n.index, p, t, bo, il))
